@@ -2,6 +2,8 @@
 import json
 
 import common
+import operator
+
 import enc
 from tracecheck import TraceCheck, parse_behaviours
 
@@ -44,7 +46,7 @@ class C13(TraceCheck):
     pid = "C13"
     module = "PoolTrace"
     rule = ("straight-line programs over a pool seeded with 3 FmtStr values (multi-run, empty run, newline), operations: "
-            "+, str+, +str, * (counts -3..2), slicing, splice, insert, append, join, copy_with_new_atts, new_with_atts_removed, copy, fmtstr() "
+            "+ and += , str+, +str, * (counts -3..2), slicing, splice, insert, append, join, copy_with_new_atts, new_with_atts_removed, copy, fmtstr() "
             "re-wrapping, split, splitlines, ljust/rjust, copy_with_new_str, width_aware_slice, width_aware_splitlines, "
             "delegated upper/strip, linesplit; observations (str, len, s, width, repr through the object vs rebuilt from fresh "
             "runs) and in-place edit attempts interleaved at random positions. Programs come from TLC (Pool.tla: exhaustive "
@@ -116,9 +118,10 @@ class C13(TraceCheck):
                             pass
             try:
                 if op == "add":
-                    res = fa + fb
+                    # every other time spelled as an augmented assignment on another name for the same value (x = fa; x += fb)
+                    res = operator.iadd(fa, fb) if (n + m + len(ev)) % 2 else fa + fb
                 elif op == "addstr":
-                    res = fa + STRPOOL[n - 1]
+                    res = operator.iadd(fa, STRPOOL[n - 1]) if (n + len(ev)) % 2 else fa + STRPOOL[n - 1]
                 elif op == "raddstr":
                     res = STRPOOL[n - 1] + fa
                 elif op == "mul":
